@@ -213,5 +213,5 @@ StoreRoundTrip ==
   \A k \in Stored : \A p \in Passes :
      LET r == Run(File0(k, accts[k]), p) IN
      IF p = accts[k] THEN r.class = "Key" /\ r.key = Atom(k) /\ r.address = AddrOf(Atom(k)) ELSE r.class = "Reject"
-DirBounded == Cardinality(Stored) <= MaxAccounts /\ \A b \in blobs : b.key \in Keys /\ b.pass \in Passes
+DirBounded == Stored \subseteq Keys /\ \A b \in blobs : b.key \in Keys /\ b.pass \in Passes
 =============================================================================
